@@ -23,9 +23,19 @@ ROOT = os.path.dirname(os.path.dirname(os.path.abspath(__file__)))
 OUT = os.path.join(ROOT, "lean", "Qvnt", "Generated")
 
 
+PROBLEMS = []
+SECTION = ["?"]
+
+
+class Skip(Exception):
+    pass
+
+
 def die(msg):
-    print("extract.py: " + msg, file=sys.stderr)
-    sys.exit(1)
+    """the current section cannot be extracted: recorded with its tag (`gates`, `quant`, `normalize`, `int`, `math`,
+    `parse`); the section gets a placeholder that no theorem accepts, the other sections are still regenerated"""
+    PROBLEMS.append(f"{SECTION[0]}: {msg}")
+    raise Skip()
 
 
 def read(rel):
@@ -86,7 +96,44 @@ CANON_PREFIX = norm("""
 """)
 
 
+GATES_PLACEHOLDER = """/- GENERATED by tools/extract.py: src/qasm/int/gates.rs could not be read in the expected shape - placeholder. -/
+namespace Qvnt.Generated
+
+inductive Arm where
+  | any | dgr | two | r (n : Nat) | u1 | u2 | u3
+deriving Repr, DecidableEq
+
+structure Row where
+  lower : String
+  upper : String
+  arm : Arm
+  ctor : String
+deriving Repr, DecidableEq
+
+def gateTable : List Row := []
+def armAnyCanonical : Bool := false
+def armDgrCanonical : Bool := false
+def armTwoCanonical : Bool := false
+def armRCanonical : Bool := false
+def armU1Canonical : Bool := false
+def armU2Canonical : Bool := false
+def armU3Canonical : Bool := false
+def noExtraArms : Bool := false
+def prefixArmCanonical : Bool := false
+
+end Qvnt.Generated
+"""
+
+
 def gen_gate_table():
+    SECTION[0] = "gates"
+    try:
+        return gen_gate_table_()
+    except Skip:
+        return GATES_PLACEHOLDER
+
+
+def gen_gate_table_():
     src = read("src/qasm/int/gates.rs")
     m = re.search(r"macro_rules!\s*gate\s*\{(.*?)\n\}\n", src, re.S)
     if not m:
@@ -162,27 +209,31 @@ def gen_consts():
     intm = read("src/qasm/int/mod.rs")
     parse = read("src/qasm/int/parse.rs")
     mathm = read("src/math/mod.rs")
-    def grab(src, pat, what):
+    def grab(src, pat, what, tag, default):
+        SECTION[0] = tag
         m = re.search(pat, src, re.S)
         if not m:
-            die(f"constant not found: {what}")
+            try:
+                die(f"constant not found: {what}")
+            except Skip:
+                return default
         return m.group(1)
-    min_buf = grab(quant, r"const MIN_BUFFER_LEN: usize = (\d+);", "MIN_BUFFER_LEN")
-    tiny = grab(quant, r"if norm <= (1e-\d+) \{\s*self\.reset\(0\);", "normalize tiny threshold")
-    close = grab(quant, r"else if 1\. - norm <= (1e-\d+) \{", "normalize close threshold")
-    ident = grab(intm, r"if bytes_len >= (\d+) \{\s*return Err\(Error::IdentIsTooLarge", "identifier limit")
-    regsz = grab(intm, r"if q_num >= (\d+) \{\s*return Err\(Error::RegisterIsTooLarge", "register size limit")
-    ipow = re.findall(r"C \{ re: (-?\d+)\., im: (-?\d+)\. \}", grab(mathm, r"I_POW_TABLE: \[C; 4\] = \[(.*?)\];", "I_POW_TABLE"))
+    min_buf = grab(quant, r"const MIN_BUFFER_LEN: usize = (\d+);", "MIN_BUFFER_LEN", "quant", "0")
+    tiny = grab(quant, r"if norm <= (1e-\d+) \{\s*self\.reset\(0\);", "normalize tiny threshold", "normalize", "1e-0")
+    close = grab(quant, r"else if 1\. - norm <= (1e-\d+) \{", "normalize close threshold", "normalize", "1e-0")
+    ident = grab(intm, r"if bytes_len >= (\d+) \{\s*return Err\(Error::IdentIsTooLarge", "identifier limit", "int", "0")
+    regsz = grab(intm, r"if q_num >= (\d+) \{\s*return Err\(Error::RegisterIsTooLarge", "register size limit", "int", "0")
+    ipow = re.findall(r"C \{ re: (-?\d+)\., im: (-?\d+)\. \}", grab(mathm, r"I_POW_TABLE: \[C; 4\] = \[(.*?)\];", "I_POW_TABLE", "math", ""))
     if len(ipow) != 4:
-        die("I_POW_TABLE shape")
-    parse = grab(parse, r"static EXAUSTIVE_CONTEXT: Context<'static> = \{(.*?)\n        ctx\n", "EXAUSTIVE_CONTEXT block")
+        PROBLEMS.append("math: I_POW_TABLE shape"); ipow = []
+    parse = grab(parse, r"static EXAUSTIVE_CONTEXT: Context<'static> = \{(.*?)\n        ctx\n", "EXAUSTIVE_CONTEXT block", "parse", "")
     var_names = re.findall(r'ctx\.var\("(\w+)",', parse)
     funcs1 = re.findall(r'ctx\.func\("(\w+)",\s*f64::(\w+)\)', parse)
     funcs2 = re.findall(r'ctx\.func2\("(\w+)",\s*f64::(\w+)\)', parse)
     funcsn = re.findall(r'ctx\.funcn\("(\w+)",\s*(\w+),\s*1\.\.\)', parse)
     n_inst = len(re.findall(r"ctx\.(var|func|func2|funcn)\(", parse))
     if n_inst != len(var_names) + len(funcs1) + len(funcs2) + len(funcsn):
-        die("parse.rs: an installed context entry has an unrecognised shape")
+        PROBLEMS.append("parse: parse.rs: an installed context entry has an unrecognised shape")
     out = ["/- GENERATED by tools/extract.py from /repo — do not edit. -/",
            "namespace Qvnt.Generated", "",
            f"/-- `MIN_BUFFER_LEN` (src/register/quant.rs) -/\ndef minBufferLen : Nat := {min_buf}",
@@ -207,8 +258,11 @@ def main():
     for name, fn in (("GateTable.lean", gen_gate_table), ("Consts.lean", gen_consts)):
         if write_if_changed(name, fn()):
             changed.append(name)
-    print("extract.py: ok" + (" (rewrote " + ", ".join(changed) + ")" if changed else " (unchanged)"))
+    for pr in PROBLEMS:
+        print("extract.py: UNSUPPORTED " + pr)
+    print("extract.py: " + ("ok" if not PROBLEMS else f"{len(PROBLEMS)} problems") + (" (rewrote " + ", ".join(changed) + ")" if changed else " (unchanged)"))
+    return 2 if PROBLEMS else 0
 
 
 if __name__ == "__main__":
-    main()
+    sys.exit(main())
